@@ -171,6 +171,44 @@ def _perturb_job(job):
     return dict(res=res.to_json(), cands=cands, none=sum(1 for l in leaves if l.get("result") == "none"), layer=sum(1 for l in leaves if l.get("result") == "layer"))
 
 
+def _product_job(job):
+    """all 3^n product stabilizer groups (each qubit an X, Y or Z eigenstate; per-qubit Pauli symbolic) against the
+    empty graph: the inputs with the largest kernels (dimension 3n) - a layer always exists"""
+    n, preset = job
+    names = ["k%d.%d" % (q, b) for q in range(n) for b in range(2)]
+    core.tt_setup(names)
+    adj = [[0] * n for _ in range(n)]
+    cands = []
+
+    def build():
+        X = [[0] * n for _ in range(n)]
+        Z = [[0] * n for _ in range(n)]
+        for q in range(n):
+            X[q][q] = var("k%d.0" % q)
+            Z[q][q] = var("k%d.1" % q)
+        return X, Z
+
+    def fn():
+        ctx = Ctx.cur
+        X, Z = build()
+        for q in range(n):
+            ctx.assume(lor(X[q][q], Z[q][q]))            # not the identity
+        for nm, val in preset:
+            ctx.assume(var(nm) if val else var(nm) ^ 1)
+        if not ctx.feasible():
+            return {"empty": True}
+        return search_obligations(ctx, n, n, X, Z, adj)
+    res = explore(fn, mode="fork")
+    for v in res.violations[:2]:
+        X, Z = build()
+        Rm, Sm = spec.env_tableau(X, Z, v["model"])
+        cands.append(dict(kind="search", n=n, m=n, R=Rm, S=Sm, adj=adj, label=v["label"]))
+    res.violations = []
+    leaves = res.leaves
+    res.leaves = leaves[:1]
+    return dict(res=res.to_json(), cands=cands, none=sum(1 for l in leaves if l.get("result") == "none"), layer=sum(1 for l in leaves if l.get("result") == "layer"))
+
+
 def _gates_job(n):
     """local_clifford_layer_to_circuit on a symbolic block (4 bits) at every qubit position: 6 feasible branches;
     the emitted gate word and its inverse act on a symbolic single-qubit Pauli exactly as the block prescribes"""
@@ -223,6 +261,7 @@ def run(tier, seed):
                   "n=4..6: L|G_c> with L symbolic on a 1-2 qubit window against the graph of the own class and of other classes, full generator sets and subsets (m<n); product class vs empty graph on 6 qubits (largest kernel)",
                   "completeness: per 'None' path one exists-layer query over all 6^n layers and all inputs on the path; soundness: per 'layer' path the defining equation for all inputs on the path",
                   "n=4,5 (m=n): seeded random unconstrained operator sets with 6 symbolic entries each (64 neighbours per seed) against a seeded graph - reaches systems with a trivial kernel",
+                  "all 3^n product stabilizer groups for n=4,5 (thorough: also n=6; quick n=6: 18 seeded ones) with per-qubit Pauli symbolic, against the empty graph: the largest kernels (dimension 3n)",
                   "gate emission: symbolic 2x2 block at every qubit position n=1..6"]
     ck.outside += ["n>=4 operator sets that are not local-Clifford images of class graphs restricted to generator subsets"]
     rnd = random.Random(seed)
@@ -264,6 +303,20 @@ def run(tier, seed):
         jobs.append(("c", (6, 0, 0, "all", [0], [0, 1, 2, 3], seed + 20)))
     for i in range(24 if tier == "quick" else 200):
         jobs.append(("p", (4 if i % 3 else 5, 6, seed * 1000 + i)))
+    for n in (4, 5, 6):
+        if n < 6 or tier == "thorough":
+            pn = ["k0.0", "k0.1", "k1.0", "k1.1"] + (["k2.0", "k2.1"] if n == 6 else [])
+            for bits in itertools.product([0, 1], repeat=len(pn)):
+                jobs.append(("P", (n, tuple(zip(pn, bits)))))
+        else:
+            # quick tier, 6 qubits (25 CPU-s per leaf: 2^18 candidate rows): one symbolic qubit, the others seeded
+            for w in range(6):
+                pre = []
+                for q in range(6):
+                    if q != w:
+                        v = rnd.choice([(1, 0), (0, 1), (1, 1)])
+                        pre += [("k%d.0" % q, v[0]), ("k%d.1" % q, v[1])]
+                jobs.append(("P", (6, tuple(pre))))
     for n in range(1, 7):
         jobs.append(("g", n))
     cands = []
@@ -277,6 +330,8 @@ def run(tier, seed):
             part = "class-family n=%d" % arg[0]
         elif kind == "p":
             part = "perturbed-random n=%d" % arg[0]
+        elif kind == "P":
+            part = "product-groups n=%d" % arg[0]
         else:
             part = "gate-emission n=%d" % arg
         ck.add(part, res, sample=1 if (kind == "g" and arg == 3) or (kind == "s" and arg[1] == 2 and arg[2] == 1 and arg[0] == 3) else 0)
@@ -298,7 +353,7 @@ def run(tier, seed):
 
 def _dispatch(job):
     kind, arg = job
-    return {"s": _small_job, "c": _class_job, "g": _gates_job, "p": _perturb_job}[kind](arg)
+    return {"s": _small_job, "c": _class_job, "g": _gates_job, "p": _perturb_job, "P": _product_job}[kind](arg)
 
 
 # ------------------------------------------------------------------------------------------------ replay
